@@ -1,6 +1,7 @@
 package main
 
 import (
+	"reflect"
 	"fmt"
 	"math/rand"
 	"path"
@@ -240,7 +241,30 @@ func runC06(r *rep.Report, thorough bool) error {
 				}
 				real[o.Filename] = do
 			}
+			// what the Dart routines are compared with: the declarations of the SPECIFICATION model of
+			// the analysis (computed from the go/types facts), when it has them — so that a field, a
+			// member or a constant the analysis lost is missed in the Dart text as well
+			specDecl := map[string]*irdump.Decl{}
+			if m, err := callAnalyse(d, a); err == nil && m != nil && m.Env != nil {
+				for _, md := range m.Env.Decls {
+					// the key and the selection of each field, by the rules of encoding/json (C09)
+					for i := range md.Fields {
+						f := &md.Fields[i]
+						tag := reflect.StructTag(f.Tag)
+						name, _, _ := strings.Cut(tag.Get("json"), ",")
+						f.JSONName = f.Name
+						if name != "" {
+							f.JSONName = name
+						}
+						f.Exported = f.GoExported && tag.Get("json") != "-" && tag.Get("gomacro") != "ignore"
+					}
+					specDecl[md.Q] = md
+				}
+			}
 			for _, dd := range env.Decls {
+				if sd := specDecl[dd.Q]; sd != nil && sd.Kind == dd.Kind {
+					dd = sd
+				}
 				fname := strings.ReplaceAll(strings.TrimPrefix(dd.PkgPath, prefix), "/", "_") + ".dart"
 				ro := real[fname]
 				if ro == nil || dd.Name == "" {
